@@ -136,12 +136,126 @@ Json/TokenProofs.vos Json/TokenProofs.vok Json/TokenProofs.required_vos: Json/To
 Json/StreamProofs.vo Json/StreamProofs.glob Json/StreamProofs.v.beautified Json/StreamProofs.required_vo: Json/StreamProofs.v Base/GoInt.vo Generated/AsmAsciiGen.vo Ascii/AsmTotal.vo Generated/AsciiGen.vo Json/Ext.vo Generated/JsonParseGen.vo Json/Grammar.vo Json/Spec.vo Json/ValidProofs.vo Json/StreamModel.vo Json/StateSpec.vo
 Json/StreamProofs.vio: Json/StreamProofs.v Base/GoInt.vio Generated/AsmAsciiGen.vio Ascii/AsmTotal.vio Generated/AsciiGen.vio Json/Ext.vio Generated/JsonParseGen.vio Json/Grammar.vio Json/Spec.vio Json/ValidProofs.vio Json/StreamModel.vio Json/StateSpec.vio
 Json/StreamProofs.vos Json/StreamProofs.vok Json/StreamProofs.required_vos: Json/StreamProofs.v Base/GoInt.vos Generated/AsmAsciiGen.vos Ascii/AsmTotal.vos Generated/AsciiGen.vos Json/Ext.vos Generated/JsonParseGen.vos Json/Grammar.vos Json/Spec.vos Json/ValidProofs.vos Json/StreamModel.vos Json/StateSpec.vos
-Properties/C11.vo Properties/C11.glob Properties/C11.v.beautified Properties/C11.required_vo: Properties/C11.v Base/GoInt.vo Json/StreamModel.vo
-Properties/C11.vio: Properties/C11.v Base/GoInt.vio Json/StreamModel.vio
-Properties/C11.vos Properties/C11.vok Properties/C11.required_vos: Properties/C11.v Base/GoInt.vos Json/StreamModel.vos
+Properties/C11.vo Properties/C11.glob Properties/C11.v.beautified Properties/C11.required_vo: Properties/C11.v Base/GoInt.vo Json/Ext.vo Json/StreamModel.vo Json/StateSpec.vo Json/StreamProofs.vo
+Properties/C11.vio: Properties/C11.v Base/GoInt.vio Json/Ext.vio Json/StreamModel.vio Json/StateSpec.vio Json/StreamProofs.vio
+Properties/C11.vos Properties/C11.vok Properties/C11.required_vos: Properties/C11.v Base/GoInt.vos Json/Ext.vos Json/StreamModel.vos Json/StateSpec.vos Json/StreamProofs.vos
 Properties/C17.vo Properties/C17.glob Properties/C17.v.beautified Properties/C17.required_vo: Properties/C17.v Base/GoInt.vo Json/Ext.vo Json/StreamModel.vo Json/StateSpec.vo Json/TokenProofs.vo
 Properties/C17.vio: Properties/C17.v Base/GoInt.vio Json/Ext.vio Json/StreamModel.vio Json/StateSpec.vio Json/TokenProofs.vio
 Properties/C17.vos Properties/C17.vok Properties/C17.required_vos: Properties/C17.v Base/GoInt.vos Json/Ext.vos Json/StreamModel.vos Json/StateSpec.vos Json/TokenProofs.vos
 Json/AppendModel.vo Json/AppendModel.glob Json/AppendModel.v.beautified Json/AppendModel.required_vo: Json/AppendModel.v Base/GoInt.vo
 Json/AppendModel.vio: Json/AppendModel.v Base/GoInt.vio
 Json/AppendModel.vos Json/AppendModel.vok Json/AppendModel.required_vos: Json/AppendModel.v Base/GoInt.vos
+Proto/RewriteModel.vo Proto/RewriteModel.glob Proto/RewriteModel.v.beautified Proto/RewriteModel.required_vo: Proto/RewriteModel.v Base/GoInt.vo Proto/Ext.vo Generated/ProtoGen.vo
+Proto/RewriteModel.vio: Proto/RewriteModel.v Base/GoInt.vio Proto/Ext.vio Generated/ProtoGen.vio
+Proto/RewriteModel.vos Proto/RewriteModel.vok Proto/RewriteModel.required_vos: Proto/RewriteModel.v Base/GoInt.vos Proto/Ext.vos Generated/ProtoGen.vos
+Extract/Extract_c19.vo Extract/Extract_c19.glob Extract/Extract_c19.v.beautified Extract/Extract_c19.required_vo: Extract/Extract_c19.v Base/GoInt.vo Proto/Ext.vo Generated/ProtoGen.vo Proto/RewriteModel.vo
+Extract/Extract_c19.vio: Extract/Extract_c19.v Base/GoInt.vio Proto/Ext.vio Generated/ProtoGen.vio Proto/RewriteModel.vio
+Extract/Extract_c19.vos Extract/Extract_c19.vok Extract/Extract_c19.required_vos: Extract/Extract_c19.v Base/GoInt.vos Proto/Ext.vos Generated/ProtoGen.vos Proto/RewriteModel.vos
+Conc/CacheModel.vo Conc/CacheModel.glob Conc/CacheModel.v.beautified Conc/CacheModel.required_vo: Conc/CacheModel.v 
+Conc/CacheModel.vio: Conc/CacheModel.v 
+Conc/CacheModel.vos Conc/CacheModel.vok Conc/CacheModel.required_vos: Conc/CacheModel.v 
+Conc/CacheSpec.vo Conc/CacheSpec.glob Conc/CacheSpec.v.beautified Conc/CacheSpec.required_vo: Conc/CacheSpec.v Conc/CacheModel.vo
+Conc/CacheSpec.vio: Conc/CacheSpec.v Conc/CacheModel.vio
+Conc/CacheSpec.vos Conc/CacheSpec.vok Conc/CacheSpec.required_vos: Conc/CacheSpec.v Conc/CacheModel.vos
+Conc/PoolModel.vo Conc/PoolModel.glob Conc/PoolModel.v.beautified Conc/PoolModel.required_vo: Conc/PoolModel.v 
+Conc/PoolModel.vio: Conc/PoolModel.v 
+Conc/PoolModel.vos Conc/PoolModel.vok Conc/PoolModel.required_vos: Conc/PoolModel.v 
+Conc/PoolSpec.vo Conc/PoolSpec.glob Conc/PoolSpec.v.beautified Conc/PoolSpec.required_vo: Conc/PoolSpec.v Conc/PoolModel.vo
+Conc/PoolSpec.vio: Conc/PoolSpec.v Conc/PoolModel.vio
+Conc/PoolSpec.vos Conc/PoolSpec.vok Conc/PoolSpec.required_vos: Conc/PoolSpec.v Conc/PoolModel.vos
+Conc/CacheProofs.vo Conc/CacheProofs.glob Conc/CacheProofs.v.beautified Conc/CacheProofs.required_vo: Conc/CacheProofs.v Conc/CacheModel.vo Conc/CacheSpec.vo
+Conc/CacheProofs.vio: Conc/CacheProofs.v Conc/CacheModel.vio Conc/CacheSpec.vio
+Conc/CacheProofs.vos Conc/CacheProofs.vok Conc/CacheProofs.required_vos: Conc/CacheProofs.v Conc/CacheModel.vos Conc/CacheSpec.vos
+Conc/LockProofs.vo Conc/LockProofs.glob Conc/LockProofs.v.beautified Conc/LockProofs.required_vo: Conc/LockProofs.v Conc/CacheModel.vo Conc/CacheSpec.vo
+Conc/LockProofs.vio: Conc/LockProofs.v Conc/CacheModel.vio Conc/CacheSpec.vio
+Conc/LockProofs.vos Conc/LockProofs.vok Conc/LockProofs.required_vos: Conc/LockProofs.v Conc/CacheModel.vos Conc/CacheSpec.vos
+Conc/PoolProofs.vo Conc/PoolProofs.glob Conc/PoolProofs.v.beautified Conc/PoolProofs.required_vo: Conc/PoolProofs.v Conc/PoolModel.vo Conc/PoolSpec.vo
+Conc/PoolProofs.vio: Conc/PoolProofs.v Conc/PoolModel.vio Conc/PoolSpec.vio
+Conc/PoolProofs.vos Conc/PoolProofs.vok Conc/PoolProofs.required_vos: Conc/PoolProofs.v Conc/PoolModel.vos Conc/PoolSpec.vos
+Proto/RewriteSpec.vo Proto/RewriteSpec.glob Proto/RewriteSpec.v.beautified Proto/RewriteSpec.required_vo: Proto/RewriteSpec.v Base/GoInt.vo Proto/Ext.vo Generated/ProtoGen.vo Proto/PrimSpec.vo Proto/RewriteModel.vo
+Proto/RewriteSpec.vio: Proto/RewriteSpec.v Base/GoInt.vio Proto/Ext.vio Generated/ProtoGen.vio Proto/PrimSpec.vio Proto/RewriteModel.vio
+Proto/RewriteSpec.vos Proto/RewriteSpec.vok Proto/RewriteSpec.required_vos: Proto/RewriteSpec.v Base/GoInt.vos Proto/Ext.vos Generated/ProtoGen.vos Proto/PrimSpec.vos Proto/RewriteModel.vos
+Json/FlagsModel.vo Json/FlagsModel.glob Json/FlagsModel.v.beautified Json/FlagsModel.required_vo: Json/FlagsModel.v Base/GoInt.vo Json/Ext.vo Generated/JsonParseGen.vo
+Json/FlagsModel.vio: Json/FlagsModel.v Base/GoInt.vio Json/Ext.vio Generated/JsonParseGen.vio
+Json/FlagsModel.vos Json/FlagsModel.vok Json/FlagsModel.required_vos: Json/FlagsModel.v Base/GoInt.vos Json/Ext.vos Generated/JsonParseGen.vos
+Json/FlagsSpec.vo Json/FlagsSpec.glob Json/FlagsSpec.v.beautified Json/FlagsSpec.required_vo: Json/FlagsSpec.v Base/GoInt.vo Json/Ext.vo Json/Grammar.vo Generated/JsonParseGen.vo Json/FlagsModel.vo
+Json/FlagsSpec.vio: Json/FlagsSpec.v Base/GoInt.vio Json/Ext.vio Json/Grammar.vio Generated/JsonParseGen.vio Json/FlagsModel.vio
+Json/FlagsSpec.vos Json/FlagsSpec.vok Json/FlagsSpec.required_vos: Json/FlagsSpec.v Base/GoInt.vos Json/Ext.vos Json/Grammar.vos Generated/JsonParseGen.vos Json/FlagsModel.vos
+Json/FlagsProofs.vo Json/FlagsProofs.glob Json/FlagsProofs.v.beautified Json/FlagsProofs.required_vo: Json/FlagsProofs.v Base/GoInt.vo Json/Ext.vo Json/Grammar.vo Generated/JsonParseGen.vo Json/ValidProofs.vo Json/FlagsModel.vo Json/FlagsSpec.vo Json/FlagsIntProofs.vo Json/FlagsKindProofs.vo
+Json/FlagsProofs.vio: Json/FlagsProofs.v Base/GoInt.vio Json/Ext.vio Json/Grammar.vio Generated/JsonParseGen.vio Json/ValidProofs.vio Json/FlagsModel.vio Json/FlagsSpec.vio Json/FlagsIntProofs.vio Json/FlagsKindProofs.vio
+Json/FlagsProofs.vos Json/FlagsProofs.vok Json/FlagsProofs.required_vos: Json/FlagsProofs.v Base/GoInt.vos Json/Ext.vos Json/Grammar.vos Generated/JsonParseGen.vos Json/ValidProofs.vos Json/FlagsModel.vos Json/FlagsSpec.vos Json/FlagsIntProofs.vos Json/FlagsKindProofs.vos
+Properties/C14.vo Properties/C14.glob Properties/C14.v.beautified Properties/C14.required_vo: Properties/C14.v Json/FlagsModel.vo Json/FlagsSpec.vo Json/FlagsIntProofs.vo Json/FlagsKindProofs.vo Json/FlagsProofs.vo
+Properties/C14.vio: Properties/C14.v Json/FlagsModel.vio Json/FlagsSpec.vio Json/FlagsIntProofs.vio Json/FlagsKindProofs.vio Json/FlagsProofs.vio
+Properties/C14.vos Properties/C14.vok Properties/C14.required_vos: Properties/C14.v Json/FlagsModel.vos Json/FlagsSpec.vos Json/FlagsIntProofs.vos Json/FlagsKindProofs.vos Json/FlagsProofs.vos
+Extract/Extract_c14.vo Extract/Extract_c14.glob Extract/Extract_c14.v.beautified Extract/Extract_c14.required_vo: Extract/Extract_c14.v Base/GoInt.vo Json/Ext.vo Generated/JsonParseGen.vo Json/Grammar.vo Json/FlagsModel.vo Json/FlagsSpec.vo
+Extract/Extract_c14.vio: Extract/Extract_c14.v Base/GoInt.vio Json/Ext.vio Generated/JsonParseGen.vio Json/Grammar.vio Json/FlagsModel.vio Json/FlagsSpec.vio
+Extract/Extract_c14.vos Extract/Extract_c14.vok Extract/Extract_c14.required_vos: Extract/Extract_c14.v Base/GoInt.vos Json/Ext.vos Generated/JsonParseGen.vos Json/Grammar.vos Json/FlagsModel.vos Json/FlagsSpec.vos
+Proto/RewriteWire.vo Proto/RewriteWire.glob Proto/RewriteWire.v.beautified Proto/RewriteWire.required_vo: Proto/RewriteWire.v Base/GoInt.vo Proto/Ext.vo Generated/ProtoGen.vo Proto/PrimSpec.vo Proto/PrimProofs.vo Proto/RewriteModel.vo Proto/RewriteSpec.vo
+Proto/RewriteWire.vio: Proto/RewriteWire.v Base/GoInt.vio Proto/Ext.vio Generated/ProtoGen.vio Proto/PrimSpec.vio Proto/PrimProofs.vio Proto/RewriteModel.vio Proto/RewriteSpec.vio
+Proto/RewriteWire.vos Proto/RewriteWire.vok Proto/RewriteWire.required_vos: Proto/RewriteWire.v Base/GoInt.vos Proto/Ext.vos Generated/ProtoGen.vos Proto/PrimSpec.vos Proto/PrimProofs.vos Proto/RewriteModel.vos Proto/RewriteSpec.vos
+Proto/WireSpec.vo Proto/WireSpec.glob Proto/WireSpec.v.beautified Proto/WireSpec.required_vo: Proto/WireSpec.v Base/GoInt.vo Proto/Ext.vo Generated/ProtoGen.vo Proto/Model.vo Proto/PrimSpec.vo Proto/Spec.vo
+Proto/WireSpec.vio: Proto/WireSpec.v Base/GoInt.vio Proto/Ext.vio Generated/ProtoGen.vio Proto/Model.vio Proto/PrimSpec.vio Proto/Spec.vio
+Proto/WireSpec.vos Proto/WireSpec.vok Proto/WireSpec.required_vos: Proto/WireSpec.v Base/GoInt.vos Proto/Ext.vos Generated/ProtoGen.vos Proto/Model.vos Proto/PrimSpec.vos Proto/Spec.vos
+Extract/Extract_c09.vo Extract/Extract_c09.glob Extract/Extract_c09.v.beautified Extract/Extract_c09.required_vo: Extract/Extract_c09.v Conc/CacheModel.vo Conc/CacheSpec.vo Conc/PoolModel.vo
+Extract/Extract_c09.vio: Extract/Extract_c09.v Conc/CacheModel.vio Conc/CacheSpec.vio Conc/PoolModel.vio
+Extract/Extract_c09.vos Extract/Extract_c09.vok Extract/Extract_c09.required_vos: Extract/Extract_c09.v Conc/CacheModel.vos Conc/CacheSpec.vos Conc/PoolModel.vos
+Extract/Extract_c12.vo Extract/Extract_c12.glob Extract/Extract_c12.v.beautified Extract/Extract_c12.required_vo: Extract/Extract_c12.v Base/GoInt.vo Proto/Ext.vo Generated/ProtoGen.vo Proto/Model.vo Proto/PrimSpec.vo Proto/Spec.vo Proto/WireSpec.vo
+Extract/Extract_c12.vio: Extract/Extract_c12.v Base/GoInt.vio Proto/Ext.vio Generated/ProtoGen.vio Proto/Model.vio Proto/PrimSpec.vio Proto/Spec.vio Proto/WireSpec.vio
+Extract/Extract_c12.vos Extract/Extract_c12.vok Extract/Extract_c12.required_vos: Extract/Extract_c12.v Base/GoInt.vos Proto/Ext.vos Generated/ProtoGen.vos Proto/Model.vos Proto/PrimSpec.vos Proto/Spec.vos Proto/WireSpec.vos
+Json/MemModel.vo Json/MemModel.glob Json/MemModel.v.beautified Json/MemModel.required_vo: Json/MemModel.v Base/GoInt.vo Json/Ext.vo Generated/JsonParseGen.vo
+Json/MemModel.vio: Json/MemModel.v Base/GoInt.vio Json/Ext.vio Generated/JsonParseGen.vio
+Json/MemModel.vos Json/MemModel.vok Json/MemModel.required_vos: Json/MemModel.v Base/GoInt.vos Json/Ext.vos Generated/JsonParseGen.vos
+Extract/Extract_c10.vo Extract/Extract_c10.glob Extract/Extract_c10.v.beautified Extract/Extract_c10.required_vo: Extract/Extract_c10.v Base/GoInt.vo Json/Ext.vo Generated/JsonParseGen.vo Json/MemModel.vo
+Extract/Extract_c10.vio: Extract/Extract_c10.v Base/GoInt.vio Json/Ext.vio Generated/JsonParseGen.vio Json/MemModel.vio
+Extract/Extract_c10.vos Extract/Extract_c10.vok Extract/Extract_c10.required_vos: Extract/Extract_c10.v Base/GoInt.vos Json/Ext.vos Generated/JsonParseGen.vos Json/MemModel.vos
+Proto/RewriteSet.vo Proto/RewriteSet.glob Proto/RewriteSet.v.beautified Proto/RewriteSet.required_vo: Proto/RewriteSet.v Base/GoInt.vo Proto/Ext.vo Generated/ProtoGen.vo Proto/PrimSpec.vo Proto/PrimProofs.vo Proto/RewriteModel.vo Proto/RewriteSpec.vo
+Proto/RewriteSet.vio: Proto/RewriteSet.v Base/GoInt.vio Proto/Ext.vio Generated/ProtoGen.vio Proto/PrimSpec.vio Proto/PrimProofs.vio Proto/RewriteModel.vio Proto/RewriteSpec.vio
+Proto/RewriteSet.vos Proto/RewriteSet.vok Proto/RewriteSet.required_vos: Proto/RewriteSet.v Base/GoInt.vos Proto/Ext.vos Generated/ProtoGen.vos Proto/PrimSpec.vos Proto/PrimProofs.vos Proto/RewriteModel.vos Proto/RewriteSpec.vos
+Properties/C12.vo Properties/C12.glob Properties/C12.v.beautified Properties/C12.required_vo: Properties/C12.v Base/GoInt.vo Proto/Model.vo Proto/Spec.vo Proto/WireSpec.vo Proto/WireRefuted.vo Proto/WireSpecProofs.vo
+Properties/C12.vio: Properties/C12.v Base/GoInt.vio Proto/Model.vio Proto/Spec.vio Proto/WireSpec.vio Proto/WireRefuted.vio Proto/WireSpecProofs.vio
+Properties/C12.vos Properties/C12.vok Properties/C12.required_vos: Properties/C12.v Base/GoInt.vos Proto/Model.vos Proto/Spec.vos Proto/WireSpec.vos Proto/WireRefuted.vos Proto/WireSpecProofs.vos
+Json/MemSpec.vo Json/MemSpec.glob Json/MemSpec.v.beautified Json/MemSpec.required_vo: Json/MemSpec.v Base/GoInt.vo Json/Ext.vo Generated/JsonParseGen.vo Json/MemModel.vo
+Json/MemSpec.vio: Json/MemSpec.v Base/GoInt.vio Json/Ext.vio Generated/JsonParseGen.vio Json/MemModel.vio
+Json/MemSpec.vos Json/MemSpec.vok Json/MemSpec.required_vos: Json/MemSpec.v Base/GoInt.vos Json/Ext.vos Generated/JsonParseGen.vos Json/MemModel.vos
+Json/FlagsIntProofs.vo Json/FlagsIntProofs.glob Json/FlagsIntProofs.v.beautified Json/FlagsIntProofs.required_vo: Json/FlagsIntProofs.v Base/GoInt.vo Json/Ext.vo Json/Grammar.vo Generated/JsonParseGen.vo Json/FlagsModel.vo Json/FlagsSpec.vo Json/ValidProofs.vo
+Json/FlagsIntProofs.vio: Json/FlagsIntProofs.v Base/GoInt.vio Json/Ext.vio Json/Grammar.vio Generated/JsonParseGen.vio Json/FlagsModel.vio Json/FlagsSpec.vio Json/ValidProofs.vio
+Json/FlagsIntProofs.vos Json/FlagsIntProofs.vok Json/FlagsIntProofs.required_vos: Json/FlagsIntProofs.v Base/GoInt.vos Json/Ext.vos Json/Grammar.vos Generated/JsonParseGen.vos Json/FlagsModel.vos Json/FlagsSpec.vos Json/ValidProofs.vos
+Json/MemProofs.vo Json/MemProofs.glob Json/MemProofs.v.beautified Json/MemProofs.required_vo: Json/MemProofs.v Base/GoInt.vo Json/Ext.vo Generated/JsonParseGen.vo Json/MemModel.vo Json/MemSpec.vo
+Json/MemProofs.vio: Json/MemProofs.v Base/GoInt.vio Json/Ext.vio Generated/JsonParseGen.vio Json/MemModel.vio Json/MemSpec.vio
+Json/MemProofs.vos Json/MemProofs.vok Json/MemProofs.required_vos: Json/MemProofs.v Base/GoInt.vos Json/Ext.vos Generated/JsonParseGen.vos Json/MemModel.vos Json/MemSpec.vos
+Proto/WireSpecProofs.vo Proto/WireSpecProofs.glob Proto/WireSpecProofs.v.beautified Proto/WireSpecProofs.required_vo: Proto/WireSpecProofs.v Base/GoInt.vo Proto/Ext.vo Generated/ProtoGen.vo Proto/Model.vo Proto/PrimSpec.vo Proto/PrimProofs.vo Proto/Spec.vo Proto/WireSpec.vo
+Proto/WireSpecProofs.vio: Proto/WireSpecProofs.v Base/GoInt.vio Proto/Ext.vio Generated/ProtoGen.vio Proto/Model.vio Proto/PrimSpec.vio Proto/PrimProofs.vio Proto/Spec.vio Proto/WireSpec.vio
+Proto/WireSpecProofs.vos Proto/WireSpecProofs.vok Proto/WireSpecProofs.required_vos: Proto/WireSpecProofs.v Base/GoInt.vos Proto/Ext.vos Generated/ProtoGen.vos Proto/Model.vos Proto/PrimSpec.vos Proto/PrimProofs.vos Proto/Spec.vos Proto/WireSpec.vos
+Proto/WireEncProofs.vo Proto/WireEncProofs.glob Proto/WireEncProofs.v.beautified Proto/WireEncProofs.required_vo: Proto/WireEncProofs.v Base/GoInt.vo Proto/Ext.vo Generated/ProtoGen.vo Proto/Model.vo Proto/PrimSpec.vo Proto/PrimProofs.vo Proto/Spec.vo Proto/WireSpec.vo Proto/DecProofs.vo Proto/RoundTrip.vo
+Proto/WireEncProofs.vio: Proto/WireEncProofs.v Base/GoInt.vio Proto/Ext.vio Generated/ProtoGen.vio Proto/Model.vio Proto/PrimSpec.vio Proto/PrimProofs.vio Proto/Spec.vio Proto/WireSpec.vio Proto/DecProofs.vio Proto/RoundTrip.vio
+Proto/WireEncProofs.vos Proto/WireEncProofs.vok Proto/WireEncProofs.required_vos: Proto/WireEncProofs.v Base/GoInt.vos Proto/Ext.vos Generated/ProtoGen.vos Proto/Model.vos Proto/PrimSpec.vos Proto/PrimProofs.vos Proto/Spec.vos Proto/WireSpec.vos Proto/DecProofs.vos Proto/RoundTrip.vos
+Proto/WireDecProofs.vo Proto/WireDecProofs.glob Proto/WireDecProofs.v.beautified Proto/WireDecProofs.required_vo: Proto/WireDecProofs.v Base/GoInt.vo Proto/Ext.vo Generated/ProtoGen.vo Proto/Model.vo Proto/PrimSpec.vo Proto/PrimProofs.vo Proto/Spec.vo Proto/WireSpec.vo Proto/DecProofs.vo Proto/RoundTrip.vo
+Proto/WireDecProofs.vio: Proto/WireDecProofs.v Base/GoInt.vio Proto/Ext.vio Generated/ProtoGen.vio Proto/Model.vio Proto/PrimSpec.vio Proto/PrimProofs.vio Proto/Spec.vio Proto/WireSpec.vio Proto/DecProofs.vio Proto/RoundTrip.vio
+Proto/WireDecProofs.vos Proto/WireDecProofs.vok Proto/WireDecProofs.required_vos: Proto/WireDecProofs.v Base/GoInt.vos Proto/Ext.vos Generated/ProtoGen.vos Proto/Model.vos Proto/PrimSpec.vos Proto/PrimProofs.vos Proto/Spec.vos Proto/WireSpec.vos Proto/DecProofs.vos Proto/RoundTrip.vos
+Properties/C09.vo Properties/C09.glob Properties/C09.v.beautified Properties/C09.required_vo: Properties/C09.v Conc/CacheModel.vo Conc/CacheSpec.vo Conc/CacheProofs.vo Conc/LockProofs.vo Conc/PoolModel.vo Conc/PoolSpec.vo Conc/PoolProofs.vo
+Properties/C09.vio: Properties/C09.v Conc/CacheModel.vio Conc/CacheSpec.vio Conc/CacheProofs.vio Conc/LockProofs.vio Conc/PoolModel.vio Conc/PoolSpec.vio Conc/PoolProofs.vio
+Properties/C09.vos Properties/C09.vok Properties/C09.required_vos: Properties/C09.v Conc/CacheModel.vos Conc/CacheSpec.vos Conc/CacheProofs.vos Conc/LockProofs.vos Conc/PoolModel.vos Conc/PoolSpec.vos Conc/PoolProofs.vos
+Json/FlagsKindProofs.vo Json/FlagsKindProofs.glob Json/FlagsKindProofs.v.beautified Json/FlagsKindProofs.required_vo: Json/FlagsKindProofs.v Base/GoInt.vo Json/Ext.vo Json/Grammar.vo Generated/JsonParseGen.vo Json/ValidProofs.vo Json/FlagsModel.vo Json/FlagsSpec.vo
+Json/FlagsKindProofs.vio: Json/FlagsKindProofs.v Base/GoInt.vio Json/Ext.vio Json/Grammar.vio Generated/JsonParseGen.vio Json/ValidProofs.vio Json/FlagsModel.vio Json/FlagsSpec.vio
+Json/FlagsKindProofs.vos Json/FlagsKindProofs.vok Json/FlagsKindProofs.required_vos: Json/FlagsKindProofs.v Base/GoInt.vos Json/Ext.vos Json/Grammar.vos Generated/JsonParseGen.vos Json/ValidProofs.vos Json/FlagsModel.vos Json/FlagsSpec.vos
+Properties/C10.vo Properties/C10.glob Properties/C10.v.beautified Properties/C10.required_vo: Properties/C10.v Base/GoInt.vo Json/Ext.vo Json/MemModel.vo Json/MemSpec.vo Json/MemProofs.vo
+Properties/C10.vio: Properties/C10.v Base/GoInt.vio Json/Ext.vio Json/MemModel.vio Json/MemSpec.vio Json/MemProofs.vio
+Properties/C10.vos Properties/C10.vok Properties/C10.required_vos: Properties/C10.v Base/GoInt.vos Json/Ext.vos Json/MemModel.vos Json/MemSpec.vos Json/MemProofs.vos
+Proto/WireRefuted.vo Proto/WireRefuted.glob Proto/WireRefuted.v.beautified Proto/WireRefuted.required_vo: Proto/WireRefuted.v Base/GoInt.vo Proto/Ext.vo Generated/ProtoGen.vo Proto/Model.vo Proto/PrimSpec.vo Proto/Spec.vo Proto/WireSpec.vo
+Proto/WireRefuted.vio: Proto/WireRefuted.v Base/GoInt.vio Proto/Ext.vio Generated/ProtoGen.vio Proto/Model.vio Proto/PrimSpec.vio Proto/Spec.vio Proto/WireSpec.vio
+Proto/WireRefuted.vos Proto/WireRefuted.vok Proto/WireRefuted.required_vos: Proto/WireRefuted.v Base/GoInt.vos Proto/Ext.vos Generated/ProtoGen.vos Proto/Model.vos Proto/PrimSpec.vos Proto/Spec.vos Proto/WireSpec.vos
+Proto/RewriteProofs.vo Proto/RewriteProofs.glob Proto/RewriteProofs.v.beautified Proto/RewriteProofs.required_vo: Proto/RewriteProofs.v Base/GoInt.vo Proto/Ext.vo Generated/ProtoGen.vo Proto/PrimSpec.vo Proto/PrimProofs.vo Proto/RewriteModel.vo Proto/RewriteSpec.vo Proto/RewriteWire.vo Proto/RewriteSet.vo
+Proto/RewriteProofs.vio: Proto/RewriteProofs.v Base/GoInt.vio Proto/Ext.vio Generated/ProtoGen.vio Proto/PrimSpec.vio Proto/PrimProofs.vio Proto/RewriteModel.vio Proto/RewriteSpec.vio Proto/RewriteWire.vio Proto/RewriteSet.vio
+Proto/RewriteProofs.vos Proto/RewriteProofs.vok Proto/RewriteProofs.required_vos: Proto/RewriteProofs.v Base/GoInt.vos Proto/Ext.vos Generated/ProtoGen.vos Proto/PrimSpec.vos Proto/PrimProofs.vos Proto/RewriteModel.vos Proto/RewriteSpec.vos Proto/RewriteWire.vos Proto/RewriteSet.vos
+Properties/C19.vo Properties/C19.glob Properties/C19.v.beautified Properties/C19.required_vo: Properties/C19.v Base/GoInt.vo Proto/Ext.vo Generated/ProtoGen.vo Proto/PrimSpec.vo Proto/RewriteModel.vo Proto/RewriteSpec.vo Proto/RewriteWire.vo Proto/RewriteSet.vo Proto/RewriteProofs.vo
+Properties/C19.vio: Properties/C19.v Base/GoInt.vio Proto/Ext.vio Generated/ProtoGen.vio Proto/PrimSpec.vio Proto/RewriteModel.vio Proto/RewriteSpec.vio Proto/RewriteWire.vio Proto/RewriteSet.vio Proto/RewriteProofs.vio
+Properties/C19.vos Properties/C19.vok Properties/C19.required_vos: Properties/C19.v Base/GoInt.vos Proto/Ext.vos Generated/ProtoGen.vos Proto/PrimSpec.vos Proto/RewriteModel.vos Proto/RewriteSpec.vos Proto/RewriteWire.vos Proto/RewriteSet.vos Proto/RewriteProofs.vos
+Proto/WireProofs.vo Proto/WireProofs.glob Proto/WireProofs.v.beautified Proto/WireProofs.required_vo: Proto/WireProofs.v Base/GoInt.vo Proto/Ext.vo Generated/ProtoGen.vo Proto/Model.vo Proto/PrimSpec.vo Proto/Spec.vo Proto/WireSpec.vo
+Proto/WireProofs.vio: Proto/WireProofs.v Base/GoInt.vio Proto/Ext.vio Generated/ProtoGen.vio Proto/Model.vio Proto/PrimSpec.vio Proto/Spec.vio Proto/WireSpec.vio
+Proto/WireProofs.vos Proto/WireProofs.vok Proto/WireProofs.required_vos: Proto/WireProofs.v Base/GoInt.vos Proto/Ext.vos Generated/ProtoGen.vos Proto/Model.vos Proto/PrimSpec.vos Proto/Spec.vos Proto/WireSpec.vos
+Extract/Extract_c15.vo Extract/Extract_c15.glob Extract/Extract_c15.v.beautified Extract/Extract_c15.required_vo: Extract/Extract_c15.v Base/GoInt.vo Json/AppendModel.vo
+Extract/Extract_c15.vio: Extract/Extract_c15.v Base/GoInt.vio Json/AppendModel.vio
+Extract/Extract_c15.vos Extract/Extract_c15.vok Extract/Extract_c15.required_vos: Extract/Extract_c15.v Base/GoInt.vos Json/AppendModel.vos
+Properties/C15.vo Properties/C15.glob Properties/C15.v.beautified Properties/C15.required_vo: Properties/C15.v Base/GoInt.vo Json/AppendModel.vo
+Properties/C15.vio: Properties/C15.v Base/GoInt.vio Json/AppendModel.vio
+Properties/C15.vos Properties/C15.vok Properties/C15.required_vos: Properties/C15.v Base/GoInt.vos Json/AppendModel.vos
